@@ -772,8 +772,6 @@ def _actuator_force(
   actuator_actlimited: wp.array[bool],
   actuator_actrange: wp.array2d[wp.vec2],
   actuator_actearly: wp.array[bool],
-  actuator_forcelimited: wp.array[bool],
-  actuator_forcerange: wp.array2d[wp.vec2],
   actuator_ctrllimited: wp.array[bool],
   actuator_ctrlrange: wp.array2d[wp.vec2],
   actuator_acc0: wp.array2d[float],
@@ -1027,32 +1025,8 @@ def _actuator_force(
       K = gainprm[1]
       bias -= gain * K * velocity
 
-  force = gain * ctrl_act + bias
-
-  if actuator_forcelimited[uid]:
-    forcerange = actuator_forcerange[worldid % actuator_forcerange.shape[0], uid]
-    force = wp.clamp(force, forcerange[0], forcerange[1])
-
-  # add DC motor mechanical forces (not subject to current limits)
-  if biastype == BiasType.DCMOTOR:
-    # cogging torque
-    A = biasprm[0]
-    if A != 0.0:
-      Np = biasprm[1]
-      phi = biasprm[2]
-      force += A * wp.sin(Np * length + phi)
-
-    # LuGre friction
-    sigma0 = dynprm[5]
-    if sigma0 > 0.0:
-      sigma1 = dynprm[6]
-      slots = util_misc.dcmotor_slots(dynprm, gainprm)
-      adr = act_first + slots[3]  # slots[3] is bristle
-      z = act_in[worldid, adr]
-      z_dot = act_dot_out[worldid, adr]
-      force -= sigma0 * z + sigma1 * z_dot
-
-  actuator_force_out[worldid, uid] = force
+  # force limits and DC motor mechanical forces are applied after the tendon total force limit
+  actuator_force_out[worldid, uid] = gain * ctrl_act + bias
 
 
 @wp.kernel
@@ -1097,6 +1071,58 @@ def _tendon_actuator_force_clamp(
         actuator_force_out[worldid, actid] *= actfrcrange[0] / ten_actfrc
       elif ten_actfrc > actfrcrange[1]:
         actuator_force_out[worldid, actid] *= actfrcrange[1] / ten_actfrc
+
+
+@wp.kernel
+def _actuator_force_limit(
+  # Model:
+  actuator_biastype: wp.array[int],
+  actuator_actadr: wp.array[int],
+  actuator_dynprm: wp.array2d[vec10],
+  actuator_gainprm: wp.array2d[vec10],
+  actuator_biasprm: wp.array2d[vec10],
+  actuator_forcelimited: wp.array[bool],
+  actuator_forcerange: wp.array2d[wp.vec2],
+  # Data in:
+  act_in: wp.array2d[float],
+  act_dot_in: wp.array2d[float],
+  actuator_length_in: wp.array2d[float],
+  actuator_force_in: wp.array2d[float],
+  # Data out:
+  actuator_force_out: wp.array2d[float],
+):
+  worldid, uid = wp.tid()
+
+  force = actuator_force_in[worldid, uid]
+
+  if actuator_forcelimited[uid]:
+    forcerange = actuator_forcerange[worldid % actuator_forcerange.shape[0], uid]
+    force = wp.clamp(force, forcerange[0], forcerange[1])
+
+  # add DC motor mechanical forces (not subject to current limits)
+  if actuator_biastype[uid] == BiasType.DCMOTOR:
+    dynprm = actuator_dynprm[worldid % actuator_dynprm.shape[0], uid]
+    biasprm = actuator_biasprm[worldid % actuator_biasprm.shape[0], uid]
+
+    # cogging torque
+    A = biasprm[0]
+    if A != 0.0:
+      Np = biasprm[1]
+      phi = biasprm[2]
+      force += A * wp.sin(Np * actuator_length_in[worldid, uid] + phi)
+
+    # LuGre friction
+    sigma0 = dynprm[5]
+    if sigma0 > 0.0:
+      sigma1 = dynprm[6]
+      gainprm = actuator_gainprm[worldid % actuator_gainprm.shape[0], uid]
+      slots = util_misc.dcmotor_slots(dynprm, gainprm)
+      adr = actuator_actadr[uid] + slots[3]  # slots[3] is bristle
+      z = act_in[worldid, adr]
+      z_dot = act_dot_in[worldid, adr]
+      force -= sigma0 * z + sigma1 * z_dot
+
+  actuator_force_out[worldid, uid] = force
 
 
 @wp.kernel
@@ -1187,8 +1213,6 @@ def fwd_actuation(m: Model, d: Data):
       m.actuator_actlimited,
       m.actuator_actrange,
       m.actuator_actearly,
-      m.actuator_forcelimited,
-      m.actuator_forcerange,
       m.actuator_ctrllimited,
       m.actuator_ctrlrange,
       m.actuator_acc0,
@@ -1226,6 +1250,26 @@ def fwd_actuation(m: Model, d: Data):
       inputs=[m.tendon_actfrclimited, m.tendon_actfrcrange, m.actuator_trntype, m.actuator_trnid, ten_actfrc],
       outputs=[d.actuator_force],
     )
+
+  # actuator force limits, applied after the tendon total force limit
+  wp.launch(
+    _actuator_force_limit,
+    dim=(d.nworld, m.nu),
+    inputs=[
+      m.actuator_biastype,
+      m.actuator_actadr,
+      m.actuator_dynprm,
+      m.actuator_gainprm,
+      m.actuator_biasprm,
+      m.actuator_forcelimited,
+      m.actuator_forcerange,
+      d.act,
+      d.act_dot,
+      d.actuator_length,
+      d.actuator_force,
+    ],
+    outputs=[d.actuator_force],
+  )
 
   # TODO(team): optimize performance
   d.qfrc_actuator.zero_()
